@@ -329,6 +329,14 @@ pub fn base_model(variant: usize) -> Model {
     // FLTR-F has two objects; the first one with an mp-filter wins
     _ = m.db.filter_sets.insert("FLTR-F".into(), vec![f.render(), g.render()]);
     _ = m.filter_exprs.insert("FLTR-F".into(), f);
+    // a filter-set object that carries the classic (IPv4) `filter:` attribute, as most registered ones do
+    let h = Ex::Ranged(Box::new(Ex::Lit(vec![("198.51.100.0/24".into(), Op::None)])), Op::Plus);
+    _ = m.db.filter_sets.insert("FLTR-G".into(), vec![format!("@filter {}", h.render())]);
+    _ = m.filter_exprs.insert("FLTR-G".into(), h);
+    // and one in today's RIPE form: mp-filter, no `changed:` attribute
+    let k = Ex::Lit(vec![("2001:db8:f00::/48".into(), Op::Range(49, 50)), ("192.0.2.0/25".into(), Op::None)]);
+    _ = m.db.filter_sets.insert("FLTR-H".into(), vec![format!("@nochanged {}", k.render())]);
+    _ = m.filter_exprs.insert("FLTR-H".into(), k);
     m
 }
 
@@ -345,6 +353,8 @@ pub fn atoms() -> Vec<Ex> {
         Ex::RouteSet("RS-X".into()),
         Ex::RouteSet("RS-R".into()),
         Ex::FilterSet("FLTR-F".into()),
+        Ex::FilterSet("FLTR-G".into()),
+        Ex::FilterSet("FLTR-H".into()),
         lit4.clone(),
         lit6,
         lit_mixed,
